@@ -85,17 +85,53 @@ def gen_indented_systematic():
     return out
 
 
+REDUCED = ["a", " ", "\n", "\r", '"', "\\", "u", "0"]
+
+
 def run(ctx):
     props = check_props(ctx.pid)
     model = build_model()
     impl = build_impl()
-    maxlen = 5 if ctx.tier == "quick" else 7
-    bodies = list(all_strings(ALPHA, maxlen))
+    maxlen = 5 if ctx.tier == "quick" else 6
+    stats = {k: 0 for k in ("impl_valid", "impl_invalid", "impl_panic", "valid_quoted", "valid_block",
+                            "valid_block_multiline_dedented", "valid_with_unicode_escape")}
+    want = [lambda t: t.startswith('"""') and "\r\n" in t, lambda t: "\\u" in t and not t.startswith('"""'),
+            lambda t: t.startswith('"""') and '\\"""' in t]
+    sampled = set()
+
+    def process(lits):
+        """one batch of literals through both runners (batches keep the thorough tier's memory bounded)"""
+        cases = sorted(hexs(x) for x in lits)
+        rows = ctx.correspond(impl, model, "str_decode", cases, classify=classify,
+                              nontrivial=lambda c, o: o.startswith("ok"),
+                              describe=lambda c: repr(unhexs(c)),
+                              compare=lambda i, m: norm(i) == norm(m))
+        for c, i, m in rows:
+            if i == "invalid":
+                stats["impl_invalid"] += 1
+                continue
+            if i.startswith("panic"):
+                stats["impl_panic"] += 1
+                continue
+            if not i.startswith("ok"):
+                continue
+            stats["impl_valid"] += 1
+            t = unhexs(c)
+            if t.startswith('"""'):
+                stats["valid_block"] += 1
+                if ("\n" in t or "\r" in t) and len(unhexs(i[3:])) + 6 < len(t):
+                    stats["valid_block_multiline_dedented"] += 1
+            else:
+                stats["valid_quoted"] += 1
+                if "\\u" in t:
+                    stats["valid_with_unicode_escape"] += 1
+            for k, w in enumerate(want):
+                if k not in sampled and len(i) > 6 and w(t):
+                    sampled.add(k)
+                    ctx.sample({"family": "str_decode", "literal": t, "impl": i, "model": m}, limit=6)
+
+    # ---- generated (non-exhaustive) part, together with the short exhaustive bodies
     lits = set()
-    for b in bodies:
-        lits.add(quoted(b))
-        lits.add(block(b))
-    n_exh = len(lits)
     esc = gen_escapes()
     for b in esc:
         lits.add(quoted(b))
@@ -107,38 +143,48 @@ def run(ctx):
         lits.add(quoted(b))
     # not-a-single-token shapes
     for x in ['"a" ', ' "a"', '"a""b"', '"a"b', "a", '"', '""', '"""', '""""', '"""""', '""""""', '"""""""', '"a', '"""a', '"""a""',
-              '"""a"" "', '"a\\"', '"""a\\"""', '"""a\\""""', '"""\\"""', "", '"퟿"', '"\U0001F600"', '"""\U0001F600\n  \U0001F600"""']:
+              '"""a"" "', '"a\\"', '"""a\\"""', '"""a\\""""', '"""\\"""', "", '"\ud7ff"', '"\U0001F600"',
+              '"""\U0001F600\n  \U0001F600"""']:
         lits.add(x)
-    cases = sorted(hexs(x) for x in lits)
-    rows = ctx.correspond(impl, model, "str_decode", cases, classify=classify,
-                          nontrivial=lambda c, o: o.startswith("ok"),
-                          describe=lambda c: repr(unhexs(c)),
-                          compare=lambda i, m: norm(i) == norm(m))
+    # ---- bounded-exhaustive part
+    n_exh = 0
+    if ctx.tier == "quick":
+        for b in all_strings(ALPHA, maxlen):
+            lits.add(quoted(b))
+            lits.add(block(b))
+            n_exh += 2
+        process(lits)
+    else:
+        for b in [""] + ALPHA:
+            lits.add(quoted(b))
+            lits.add(block(b))
+        process(lits)
+        # one batch per first character: full alphabet to length maxlen, reduced alphabet one longer
+        for first in ALPHA:
+            batch = set()
+            for suf in all_strings(ALPHA, maxlen - 1):
+                if suf:
+                    batch.add(quoted(first + suf))
+                    batch.add(block(first + suf))
+            n_exh += len(batch)
+            process(batch)
+        for first in REDUCED:
+            batch = set()
+            for suf in itertools.product(REDUCED, repeat=maxlen):
+                b = first + "".join(suf)
+                batch.add(quoted(b))
+                batch.add(block(b))
+            process(batch)
     fam = ctx.cov["families"]["str_decode"]
-    fam["impl_valid"] = sum(1 for _, i, _ in rows if i.startswith("ok"))
-    fam["impl_invalid"] = sum(1 for _, i, _ in rows if i == "invalid")
-    fam["impl_panic"] = sum(1 for _, i, _ in rows if i.startswith("panic"))
-    fam["valid_quoted"] = sum(1 for c, i, _ in rows if i.startswith("ok") and not unhexs(c).startswith('"""'))
-    fam["valid_block"] = sum(1 for c, i, _ in rows if i.startswith("ok") and unhexs(c).startswith('"""'))
-    fam["valid_block_multiline_dedented"] = sum(
-        1 for c, i, _ in rows if i.startswith("ok") and unhexs(c).startswith('"""')
-        and any(t in unhexs(c) for t in "\n\r") and len(unhexs(i[3:])) + 6 < len(unhexs(c)))
-    fam["valid_with_unicode_escape"] = sum(1 for c, i, _ in rows if i.startswith("ok") and "\\u" in unhexs(c)
-                                           and not unhexs(c).startswith('"""'))
+    fam.update(stats)
     fam["exhaustive_literals"] = n_exh
     fam["exhaustive_upto_body_len"] = maxlen
     fam["escape_generator"] = len(esc)
     fam["indented_generator"] = len(ind)
-    want = [lambda c: unhexs(c).startswith('"""') and "\r\n" in unhexs(c), lambda c: "\\u" in unhexs(c),
-            lambda c: unhexs(c).startswith('"""') and '\\"""' in unhexs(c)]
-    for w in want:
-        for c, i, m in rows:
-            if i.startswith("ok") and len(i) > 6 and w(c):
-                ctx.sample({"family": "str_decode", "literal": unhexs(c), "impl": i, "model": m}, limit=6)
-                break
+    extra = "" if ctx.tier == "quick" else f"; and every body of length {maxlen + 1} over the 8 characters {[repr(a) for a in REDUCED]}"
     ctx.cov["rule"] = (
         f"str_decode: every body of length <= {maxlen} over the 12-character alphabet {[repr(a) for a in ALPHA]}, as a quoted "
-        "and as a block literal; every kind of escape (valid, invalid, truncated; 4-digit combinations around the "
+        f"and as a block literal{extra}; every kind of escape (valid, invalid, truncated; 4-digit combinations around the "
         "surrogate range and hex/non-hex boundaries) alone, embedded and doubled; systematic 2- and 3-line indented "
         "texts with every line terminator plus a seeded sample of 1-6 line texts with mixed tab/space indentation, "
         "whitespace-only lines, escaped triple quotes, BOM and non-ASCII; not-a-single-token shapes. "
@@ -150,6 +196,8 @@ def run(ctx):
         "the compiler's conversion (ast/from_cst.rs) is covered by the oracle only: it must store the CST-level value in "
         "argument values, variable and input-field defaults and the descriptions of all describable definitions",
         "panic messages are not compared",
+        "Str/Literal.v is this property's own statement of lexical validity; it is compared with the real lexer on every "
+        "case, not derived from the lexer model of C03",
     ]
     return ctx.finish(props)
 
